@@ -78,9 +78,128 @@ def one_case(mod, shard, case, collector):
     return ctx
 
 
-def run_collect(mod, shard, seed, collector, wall_budget):
+def _atheris():
+    """atheris from /verif/.deps (installed offline by setup.sh); None if it cannot be imported"""
+    deps = os.path.join(HERE, ".deps")
+    if deps not in sys.path:
+        sys.path.append(deps)
+    try:
+        import atheris
+
+        return atheris
+    except Exception:  # noqa: BLE001
+        return None
+
+
+def run_fuzz(mod, shard, seed, collector, wall_budget, finish):
+    """Coverage-guided campaign: libFuzzer (atheris) mutates the byte string that Hypothesis decodes into a case
+    of the property's own strategy (``fuzz_one_input``); pyhf is instrumented for coverage, the oracle is the
+    same run_case as everywhere else.  libFuzzer never returns from Fuzz(), so this function writes the shard
+    result through ``finish`` and leaves the process itself once ``runs`` inputs have been executed."""
+    atheris = _atheris()
+    if atheris is None:
+        shard["_fuzz_fallback"] = "atheris not importable: the shard ran as plain random generation"
+        shard2 = dict(shard, kind="hyp", examples=max(1, int(shard["runs"]) // 4))
+        info = run_collect(mod, shard2, seed, collector, wall_budget)
+        info["fuzz_fallback"] = shard["_fuzz_fallback"]
+        return info
+    import tempfile
+
+    with atheris.instrument_imports(include=["pyhf"]):
+        import pyhf  # noqa: F401
+        import pyhf.patchset  # noqa: F401
+        import pyhf.pdf  # noqa: F401
+        import pyhf.workspace  # noqa: F401
+    quiet()
+    t0 = time.time()
+    runs = int(shard["runs"])
+    state = {"calls": 0, "done": False}
+
+    # Hypothesis 6.168's own `fuzz_one_input` cannot be used: its BytestringProvider.draw_integer compares the
+    # raw bits with [min_value, max_value] without adding min_value, so integers(lo, hi) with lo > hi - lo
+    # (every st.permutations of >= 3 elements, among others) never terminate and every input is an overrun.
+    # The same decoding is done here with that one method corrected.
+    from hypothesis.control import BuildContext
+    from hypothesis.errors import StopTest, UnsatisfiedAssumption
+    from hypothesis.internal.conjecture.data import ConjectureData
+    from hypothesis.internal.conjecture.providers import BytestringProvider
+
+    class Provider(BytestringProvider):
+        def draw_integer(self, min_value=None, max_value=None, *, weights=None, shrink_towards=0):
+            if min_value is None and max_value is None:
+                min_value, max_value = -(2**127), 2**127 - 1
+            elif min_value is None:
+                min_value = max_value - 2**64
+            elif max_value is None:
+                max_value = min_value + 2**64
+            if min_value == max_value:
+                return min_value
+            span = max_value - min_value
+            return min_value + self._draw_bits(span.bit_length()) % (span + 1)
+
+    strategy = mod.strategy(shard)
+
+    def fuzz_one(buf):
+        data = ConjectureData(random=None, provider=Provider, provider_kw={"bytestring": bytes(buf)})
+        try:
+            with BuildContext(data, is_final=False, wrapped_test=fuzz_one):
+                case = data.draw(strategy)
+        except (StopTest, UnsatisfiedAssumption):
+            return
+        one_case(mod, shard, case, collector)
+
+    def leave(complete):
+        if state["done"]:
+            return
+        state["done"] = True
+        finish({"complete": complete, "fuzz": {"engine": "atheris/libFuzzer", "inputs_executed": state["calls"],
+                                                 "decoded_into_cases": collector.evaluations,
+                                                 "wall_s": round(time.time() - t0, 1)}})
+        sys.stdout.flush()
+        sys.stderr.flush()
+        os._exit(0)
+
+    def target(data):
+        state["calls"] += 1
+        try:
+            fuzz_one(data)
+        except BaseException as exc:  # noqa: BLE001 - nothing may reach libFuzzer as a crash
+            if isinstance(exc, (KeyboardInterrupt, SystemExit)):
+                raise
+            collector.add_harness_error({"fuzz_input_hex": bytes(data)[:256].hex()}, exc)
+        if state["calls"] >= runs or (wall_budget and time.time() - t0 > wall_budget):
+            leave(state["calls"] >= runs)
+
+    corpus = tempfile.mkdtemp(prefix="corpus_", dir=os.path.dirname(shard["_out"]))
+    # starting corpus: byte strings long enough for the strategy to decode a whole case (from the empty corpus
+    # every short input is an overrun, which gives libFuzzer no coverage to climb); derived from the seed only
+    import random
+
+    rng = random.Random(derive_seed(seed, mod.ID, shard["name"]))
+    for k in range(int(shard.get("corpus_files", 48))):
+        n = rng.choice([256, 1024, 4096, int(shard.get("max_len", 8192))])
+        style = k % 3
+        if style == 0:
+            blob = rng.randbytes(n)
+        elif style == 1:  # small values: short collections, early alternatives
+            blob = bytes(rng.choice([0, 0, 0, 1, 1, 2, 3, 7, 255]) for _ in range(n))
+        else:
+            blob = bytes(rng.randrange(0, 32) for _ in range(n))
+        with open(os.path.join(corpus, f"seed_{k:03d}"), "wb") as fh:
+            fh.write(blob)
+    argv = [sys.argv[0], f"-seed={derive_seed(seed, mod.ID, shard['name']) % (2**31 - 1) + 1}", f"-runs={runs * 3}",
+            f"-max_len={int(shard.get('max_len', 8192))}", "-len_control=0", "-print_final_stats=0", "-verbosity=0", "-rss_limit_mb=0",
+            corpus]
+    atheris.Setup(argv, target)
+    atheris.Fuzz()
+    leave(False)  # not reached: libFuzzer exits the process itself
+
+
+def run_collect(mod, shard, seed, collector, wall_budget, finish=None):
     t0 = time.time()
     kind = shard.get("kind", "hyp")
+    if kind == "fuzz":
+        return run_fuzz(mod, shard, seed, collector, wall_budget, finish)
     if kind == "enum":
         n = 0
         for case in mod.cases(shard):
@@ -126,6 +245,9 @@ def run_shrink(mod, shard, seed, target_sig, budget_s):
     best = {"case": None, "size": None, "detail": None}
     t0 = time.time()
     dummy = Collector()
+
+    if shard.get("kind", "hyp") == "fuzz":
+        return best  # the campaign itself kept the smallest failing case per signature
 
     if shard.get("kind", "hyp") == "enum":
         for case in mod.cases(shard):
@@ -201,9 +323,23 @@ def main():
     if hasattr(mod, "setup_shard"):
         mod.setup_shard(shard)
     result = {"shard": shard, "mode": a.mode}
+    def write(res):
+        res["wall_s"] = time.time() - t0
+        tmp = a.out + ".tmp"
+        with open(tmp, "w") as fh:
+            json.dump(res, fh)
+        os.replace(tmp, a.out)
+
     if a.mode == "collect":
-        col = Collector()
-        info = run_collect(mod, shard, a.seed, col, a.wall)
+        col = Collector(keep_smallest=shard.get("kind") == "fuzz")
+        shard["_out"] = a.out
+
+        def finish(info):
+            result.update(col.to_json())
+            result.update(info)
+            write(result)
+
+        info = run_collect(mod, shard, a.seed, col, a.wall, finish)
         result.update(col.to_json())
         result.update(info)
     elif a.mode == "shrink":
@@ -216,11 +352,7 @@ def main():
         if isinstance(doc, dict) and "shard" in doc:
             shard.update({k: v for k, v in doc["shard"].items() if k not in shard})
         result.update(run_replay(mod, shard, case))
-    result["wall_s"] = time.time() - t0
-    tmp = a.out + ".tmp"
-    with open(tmp, "w") as fh:
-        json.dump(result, fh)
-    os.replace(tmp, a.out)
+    write(result)
 
 
 if __name__ == "__main__":
